@@ -436,6 +436,10 @@ class SessionRulesPlugin(Plugin):
                 mon.viol("C09", "hft_agent_not_consulted_in_phase", {"phase": ids, "population": self.hft_ids, "cap": cap_h, "t": mon.now})
             if len(ids) >= 2:
                 mon.consult_seqs.add(("H",) + tuple(ids))
+        if 0 < rate < 1 and cap_h > 0 and self.hft_ids and not mon.aborted and batches:
+            # how often a batch is followed by a high-frequency phase: judged over the whole batch of runs
+            mon.stat(f"hft_opportunities@{rate:g}", len(batches))
+            mon.stat(f"hft_phases@{rate:g}", sum(1 for bi in range(1, len(batches) + 1) if phase_after_batch.get(bi)))
         if phases and (rate == 0 or cap_h == 0):
             mon.viol("C09", "hft_consulted_despite_rate0_or_cap0", {"rate": rate, "cap": cap_h, "t": mon.now})
         if rate >= 1 and cap_h > 0 and self.hft_ids and not mon.aborted:
@@ -677,6 +681,7 @@ class HooksPlugin(Plugin):
         self.calls: Dict[Tuple, Counter] = {}
         self.occ: Dict[Tuple[str, bool], List[Tuple[int, int]]] = {}
         self.last_alter = None
+        self.armed: Dict[str, List[Tuple]] = {}
         self.sesb_seen = set()
         self.stb_seen = set()
         self.name2market = dict(mon.sim.name2market)
@@ -723,6 +728,11 @@ class HooksPlugin(Plugin):
 
     def on_probe_altered(self, mon, name, order):
         self.last_alter = (id(order), order.price)
+
+    def on_probe_armed(self, mon, name, hook):
+        # a hook registered while the run is in progress counts from the next occurrence on
+        key = (hook["kind"], bool(hook["before"]))
+        self.armed.setdefault(name, []).append((key, len(self.occ.get(key, [])), hook))
 
     def on_written(self, mon, log, code, channel, first):
         if code == "SesB":
@@ -801,6 +811,12 @@ class HooksPlugin(Plugin):
                         if h.get("inst") and self.name2market[h["inst"]] is not mk:
                             continue
                     cnt[(t, mid)] += n_inst
+            for key, start, h in self.armed.get(name, []):
+                cnt = per.setdefault(key, Counter())
+                times = None if h.get("times") is None else set(h["times"])
+                for (t, mid) in self.occ.get(key, [])[start:]:
+                    if times is None or t in times:
+                        cnt[(t, mid)] += 1
             kinds = set(per.keys()) | {(k[1], k[2]) for k in self.calls if k[0] == name}
             for key in sorted(kinds):
                 want = +per.get(key, Counter())
